@@ -55,6 +55,26 @@ fn p_tup_move() {
     assert!(drops() == 10, "C12 every payload dropped exactly once");
     kani::cover!(true, "reaches end");
 }
+#[kani::proof]
+fn p_tup_mixed_sizes() {
+    // fields of different size and alignment: a Rust tuple may order them differently from the repr(C) struct
+    let (a, b, c, d): (u8, u64, u16, u32) = kani::any();
+    let t4: CTup4<u8, u64, u16, u32> = (a, b, c, d).into();
+    assert!(t4.0 == a && t4.1 == b && t4.2 == c && t4.3 == d, "C12 CTup4 fields in place (mixed sizes)");
+    let r4: (u8, u64, u16, u32) = t4.into();
+    assert!(r4 == (a, b, c, d) && t4.into_tuple() == (a, b, c, d), "C12 CTup4 round trip (mixed sizes)");
+    let t3: CTup3<u32, u64, u32> = (d, b, d ^ 1).into();
+    let r3: (u32, u64, u32) = t3.into();
+    assert!(r3 == (d, b, d ^ 1), "C12 CTup3 round trip (mixed sizes)");
+    let t2: CTup2<u8, u64> = (a, b).into();
+    assert!(t2.into_tuple() == (a, b), "C12 CTup2 round trip (mixed sizes)");
+    let boxed: CTup3<u8, D, u8> = (a, D::new(b), a ^ 1).into();
+    let rb: (u8, D, u8) = boxed.into();
+    assert!(rb.0 == a && rb.1.v == b && rb.1.ok() && rb.2 == a ^ 1 && drops() == 0, "C12 heap-owning field between small fields survives the round trip");
+    drop(rb);
+    assert!(drops() == 1);
+    kani::cover!(true, "end");
+}
 //@ prefix=canary kind=canary clause=vacuity canary
 #[kani::proof]
 fn canary_tup() {
